@@ -11,6 +11,7 @@ Require Import Urcu.Lfht.LfhtKinds.
 Require Import Urcu.Lfht.LfhtRch.
 Require Import Urcu.Lfht.LfhtFind.
 Require Import Urcu.Lfht.LfhtExample.
+Require Import Urcu.Lfht.LfhtHit.
 Import ListNotations.
 
 (* every next link is non-decreasing in reverse hash, for every schedule and thread map *)
@@ -85,4 +86,28 @@ Theorem C05_lookup_returns_key :
     rmd C s' x = false -> hcur (HS C t s') = L_Ret n -> htodo (HS C t s') = rest -> good C x n.
 Proof. exact (@Urcu.Lfht.LfhtFind.lookup_returns_key). Qed.
 Print Assumptions C05_lookup_returns_key.
+
+(* a lookup stands on an answer only through the step that has just loaded that node's next word: at that instant the node is inserted, not logically removed, not a bucket, and has the requested reverse hash and key (the linearisation point of a successful lookup) *)
+Theorem C05_lookup_hit_justified :
+    forall (C : cfg) (isB : N -> bool) (s : state hloc (hprog C)) (t : nat) (node rhh k : N),
+    Inv2 C isB s ->
+    PCr C s t = L_Node node rhh k ->
+    let s' := fst (exec hloc hloc_eqb (hprog C) (Step t) s) in
+    forall n nx : N,
+    PCr C s' t = L_Assert n nx ->
+    n = node /\
+    nx = nxw C s node /\
+    insd C s node /\
+    node <> 0%N /\
+    is_removed (nxw C s node) = false /\
+    is_bucket (nxw C s node) = false /\ rh C node = rhh /\ key C node = k.
+Proof. exact (@Urcu.Lfht.LfhtHit.lookup_hit_justified). Qed.
+Print Assumptions C05_lookup_hit_justified.
+
+(* a non-null answer of a lookup comes from that program point only *)
+Theorem C05_lookup_answer_from_that_step :
+    forall (C : cfg) (p : hst) (r n : N),
+    hcur (hnext C p r) = L_Ret n -> n <> 0%N -> exists nx : N, hcur p = L_Assert n nx.
+Proof. exact (@Urcu.Lfht.LfhtHit.ret_from_assert). Qed.
+Print Assumptions C05_lookup_answer_from_that_step.
 
